@@ -281,16 +281,14 @@ example : specE2E 1 3 ⟨3, 1, 0, 0, true, 4, 1, some (true, 0), some (false, 0)
 
 /-! ### tie: pinned source facts -/
 
+/-- (`needPrefetch`'s three statements are tied by translation: `Prefetch.c19_needPrefetch_translated`) -/
 theorem pins :
-    Facts.pf_lifeSpan = "lifeSpan := expireTime.Sub(storedTime)" ∧
-    Facts.pf_remain = "remainTtl := time.Until(expireTime)" ∧
-    Facts.pf_window = "return remainTtl < (lifeSpan >> 2)" ∧
     Facts.pf_reserveBody = "{ c.m.Lock() defer c.m.Unlock() _, dup := c.queue[key] if dup { return false } c.queue[key] = struct{}{} return true }" ∧
     Facts.pf_doneBody = "{ c.m.Lock() defer c.m.Unlock() delete(c.queue, key) }" ∧
     Facts.pf_asyncBody = "{ key := r.cache.keyForPrefetch(q, remoteAddr) if ok := r.prefetch.reserve(key); !ok { return } qCopy := q.Copy() go func() { r.doPrefetch(qCopy, remoteAddr, u) dnsmsg.ReleaseQuestion(qCopy) r.prefetch.done(key) }() }" ∧
     Facts.pf_goStmt = "go func() { r.doPrefetch(qCopy, remoteAddr, u) dnsmsg.ReleaseQuestion(qCopy) r.prefetch.done(key) }()" ∧
     Facts.pf_goCount = 1 := by
-  refine ⟨?_, ?_, ?_, ?_, ?_, ?_, ?_, ?_⟩ <;> rfl
+  refine ⟨?_, ?_, ?_, ?_, ?_⟩ <;> rfl
 
 /-- (continued) the hit path calls the prefetch before answering and never waits for it; doPrefetch stores only
     after a successful forward -/
